@@ -87,7 +87,7 @@ pub fn run(args: &Args) -> Report {
             rep.inc("static.single_parameter_changes");
             rep.case(&format!("static|{case}|dyn{k}"), true);
             if digest(&with(d2)).ok() == h_some {
-                rep.violation(&format!("C13|static-build|dynamic-param-unbound|{k}"), &format!("single-layout build: dynamic parameter #{k} + 1 leaves the digest unchanged"), json!({"case": case, "seed": seed, "param": k}));
+                rep.violation("C13|static-build|dynamic-param-unbound", &format!("single-layout build: dynamic parameter #{k} + 1 leaves the digest unchanged"), json!({"case": case, "seed": seed, "param": k}));
             }
         }
         // the other fields, one at a time (scalars; one segment bound; one cell; one header field except prod)
